@@ -99,3 +99,58 @@ Theorem render_tree_output :
 Proof. exact Footnotes.render_tree_output. Qed.
 Print Assumptions render_tree_output.
 
+
+(* ---------- placement (Proofs/ParaGreedy.v on Decorators): the i-th link's content is immediately followed by its reference [m], the stream ends with the list [k]: target_k ---------- *)
+From H2T Require Import Base Tagged Wrap Sub Css Dom Render Api CssParse Proofs.CssTotal Proofs.WrapInv Proofs.RenderWidth Proofs.Conserve Proofs.Footnotes Proofs.AnnBalance Proofs.RenderConserve Proofs.OptionRel Proofs.Compose Proofs.RenderTotal Proofs.FragStream Proofs.SimRel Proofs.Prune Proofs.GreedyProof Proofs.Decorators Proofs.ParaGreedy.
+Theorem c08_reference_placement :
+  forall (d : deco) (mw : N) (o : ropts) (width : N) (tree : rnode) (s : subr) 
+         (ls : list rline) (i : nat) (href : text) (cs : list rnode) (sty : cstyle),
+       Decorators.flow tree = true ->
+       render_tree d mw o width tree = Ok s ->
+       sub_into_lines s = Ok ls ->
+       nth_error (link_nodes tree) i = Some (RN (ILink href cs) sty) ->
+       nth_error (all_links tree) i = Some href /\
+       (exists (pre post : list chr) (kf : nat),
+          filter nonws (flat_map rline_string ls) =
+          pre ++
+          (Decorators.vis kf (fst (d_link_start d href)) ++
+           Decorators.kids_full d o kf cs (S i) ++
+           Decorators.vis kf (d_link_end d) ++
+           (if o_footnotes o then Decorators.vis kf (ref_text (S i + length (flat_map all_links cs))) else [])) ++
+          post ++ (if o_footnotes o then foot_from 1 (all_links tree) else []) /\
+          (o_strike o = false -> kf = 0%nat)).
+Proof. exact ParaGreedy.c08_reference_placement. Qed.
+Print Assumptions c08_reference_placement.
+
+Theorem c08_plain_reference :
+  forall (mw : N) (o : ropts) (width : N) (tree : rnode) (s : subr) (ls : list rline) 
+         (i : nat) (href : text) (cs : list rnode) (sty : cstyle),
+       Decorators.flow tree = true ->
+       o_footnotes o = true ->
+       render_tree plain_deco mw o width tree = Ok s ->
+       sub_into_lines s = Ok ls ->
+       nth_error (link_nodes tree) i = Some (RN (ILink href cs) sty) ->
+       flat_map all_links cs = [] ->
+       exists (pre post : list chr) (kf : nat),
+         filter nonws (flat_map rline_string ls) =
+         pre ++
+         Decorators.vis kf (dtext [91]) ++
+         Decorators.kids_full plain_deco o kf cs (S i) ++
+         Decorators.vis kf (dtext [93]) ++
+         Decorators.vis kf (ftext ([91] ++ dec_N (N.of_nat (S i)) ++ [93])) ++
+         post ++ foot_from 1 (all_links tree) /\ (o_strike o = false -> kf = 0%nat).
+Proof. exact ParaGreedy.c08_plain_reference. Qed.
+Print Assumptions c08_plain_reference.
+
+Theorem foot_stream_explicit :
+  forall (o : ropts) (L : list text),
+       Decorators.foot_stream o L = (if o_footnotes o then foot_from 1 L else []).
+Proof. exact ParaGreedy.foot_stream_explicit. Qed.
+Print Assumptions foot_stream_explicit.
+
+Theorem flow_text_stream :
+  forall (d : deco) (o : ropts) (n : rnode),
+       inl n = true -> forall k nl : nat, kept (flow_text d o k n nl) = Decorators.full_stream d o k n nl.
+Proof. exact ParaGreedy.flow_text_stream. Qed.
+Print Assumptions flow_text_stream.
+
